@@ -28,7 +28,10 @@ TRUSTED = {
     'A9': 'A9 restated callee contracts: Verus runs one file per unit, so a callee proved in another unit appears in the caller\'s unit as an external_body function (or an axiom) whose '
           'contract is restated; every such link is listed and audited in DESIGN.md §2.8 (the word pipeline into U11, break_apart into U6, Word::from, the line breakers and the dispatch, '
           'split_points into U14, display_width / strip / the ANSI skipper from U3, wrap\'s shortcut into U12, the ASCII word finder and first-fit into U10, smawk from U24 into U2, indent from U8 into U9\'s theorem c18_dedent_of_indent). '
-          'Each link that concerns textwrap code is also an executable BEC contract on the real callee (C11/C12/C06/C10 contracts)',
+          'Each link that concerns textwrap code is also an executable BEC contract on the real callee (C11/C12/C06/C10 contracts). '
+          'In U6 display width is no longer abstract: the unit includes the shared definition dw of prelude/ansi.vrs (the one U3 proves display_width against), so dw("") == 0 is a lemma there; '
+          'the same inclusion in U11 (which would also turn dw_le_bytes into U3\'s lemma) verified but doubled the unit\'s resource use (98M rlimit units, 1 of 8 SMT seeds failing), '
+          'so U11 keeps dw abstract with those two facts restated',
     'A10': 'A10 (discharged) char-boundary safety of &line[idx..idx+len] in wrap\'s reassembly is now PROVED in U11 (the seam between valid UTF-8 pieces is a char boundary), '
            'and String::from_utf8(..).unwrap() in fill_inplace is proved not to fail in U10 (overwriting an ASCII byte by an ASCII byte keeps UTF-8 validity)',
     'A11': 'A11 stated preconditions: wrap_optimal_fit: fragments.len() <= isize::MAX (true of every slice of non-zero-sized fragments; for a zero-sized fragment type the Vec of prefix sums could not be allocated); wrap_columns: columns <= isize::MAX and '
